@@ -250,7 +250,9 @@ func cmdCheck(argv []string) int {
 				line := fmt.Sprintf("KNOWN-FINDING: property=%s %s [obligation %s at %s: %s]", *prop, kf.What, o.Name, o.Pos, o.Desc)
 				knownPrinted = append(knownPrinted, line)
 				knownObls++
-				discharged++ // discharged outside the recorded known-finding class (reported separately)
+				if kf.Class != "" {
+					discharged++ // discharged outside the recorded known-finding class (reported separately)
+				}
 				continue
 			}
 		}
